@@ -280,3 +280,152 @@ Proof.
   induction ops as [|o r IH]; intros s H; [exact H|].
   rewrite dfinal_cons. apply IH. now apply gf_step.
 Qed.
+
+(* ------------------------------------------------------------------------------------------ *)
+(** * Refinement: the repaired model answers as the plain-list specification demands *)
+
+Lemma s_count_abs : forall s, s_count (abs s) = count s.
+Proof. intros. unfold s_count, count, abs. cbn [q_dims]. apply zlen_map. Qed.
+
+Ltac rep_simpl :=
+  cbn [repaired check_sorted_on_append check_interval_on_append keep_negative_offset validate_unit_first
+       validate_frame_first reject_nan ro_delete_throws] in *.
+Ltac abs_simpl :=
+  cbn [abs q_dims q_label q_unit q_data q_ty q_rank q_frames q_ro s_with_dims s_with_label s_with_unit s_with_data
+       q_data_dbl s_count] in *.
+
+Lemma lempty_count : forall s, lempty (map snd (dims s)) = negb (0 <? count s).
+Proof.
+  intros. unfold count. destruct (dims s); [reflexivity|]. rewrite zlen_cons. pose proof (zlen_nonneg d).
+  cbn [map lempty]. destruct (Z.ltb_spec 0 (zlen d + 1)); [reflexivity|lia].
+Qed.
+
+Ltac lit_simpl :=
+  change (sempty "") with true in *; change (opt_ne "") with (@None string) in *; cbn [lempty] in *.
+
+Lemma fne_zero : fne fzero fzero = false.
+Proof. reflexivity. Qed.
+
+Lemma combine_fst_snd : forall {A B} (m : list (A * B)), combine (map fst m) (map snd m) = m.
+Proof. induction m as [|[a b] m IH]; cbn; auto. now f_equal. Qed.
+
+Lemma lookup_later : forall p r i a, fst p = a -> keys_from_z (a + 1) r -> In i (keys r) -> lookup i (p :: r) = lookup i r.
+Proof.
+  intros [k d] r i a E H I. cbn [fst] in E. subst k. cbn [lookup].
+  pose proof (keys_from_in r (a + 1) i H I). destruct (Z.eqb_spec a i); [lia|reflexivity].
+Qed.
+
+Lemma dims_list_gf : forall m a, keys_from_z a m ->
+  flat_map (fun i => match lookup i m with Some d => [(i, kind_of d)] | None => [] end) (keys m)
+  = map (fun p => (fst p, kind_of (snd p))) m.
+Proof.
+  induction m as [|p r IH]; intros a H; [reflexivity|].
+  destruct H as [H1 H2]. cbn [keys map flat_map]. fold (keys r).
+  assert (L : lookup (fst p) (p :: r) = Some (snd p)) by (destruct p; cbn [lookup fst snd]; now rewrite Z.eqb_refl).
+  rewrite L. cbn [app]. f_equal.
+  rewrite <- (IH (a + 1) H2). rewrite !flat_map_concat_map. f_equal. apply map_ext_in.
+  intros i I. now rewrite (lookup_later p r i a H1 H2 I).
+Qed.
+
+Lemma obs_list_gf : forall (F : dimdesc -> dobs) m a, keys_from_z a m ->
+  map (fun i => (i, match lookup i m with Some d => Some (i, F d) | None => None end)) (keys m)
+  = map (fun p => (fst p, Some (fst p, F (snd p)))) m.
+Proof.
+  induction m as [|p r IH]; intros a H; [reflexivity|].
+  destruct H as [H1 H2]. cbn [keys map]. fold (keys r).
+  assert (L : lookup (fst p) (p :: r) = Some (snd p)) by (destruct p; cbn [lookup fst snd]; now rewrite Z.eqb_refl).
+  rewrite L. f_equal.
+  rewrite <- (IH (a + 1) H2). apply map_ext_in.
+  intros i I. now rewrite (lookup_later p r i a H1 H2 I).
+Qed.
+
+Lemma s_get_zero : forall l, s_get 0 l = None.
+Proof. intros. unfold s_get. reflexivity. Qed.
+
+Lemma s_get_next : forall l, s_get (zlen l + 1) l = None.
+Proof.
+  intros. unfold s_get. destruct (Z.leb_spec (zlen l + 1) (zlen l)); [lia|].
+  now rewrite andb_false_r.
+Qed.
+
+Lemma dims_refines : forall s, gap_free (dims s) ->
+  flat_map (fun i => match lookup i (dims s) with Some d => [(i, kind_of d)] | None => [] end) (zrange (count s))
+  = map (fun p => (fst p, kind_of (snd p))) (combine (zrange (s_count (abs s))) (map snd (dims s))).
+Proof.
+  intros s H. rewrite s_count_abs. unfold count. pose proof H as G. apply gap_free_zrange in G. rewrite <- G.
+  unfold keys at 2. rewrite combine_fst_snd. now apply (dims_list_gf _ 1).
+Qed.
+
+Lemma observe_refines : forall s, gap_free (dims s) -> dobserve s = s_observe (abs s).
+Proof.
+  intros s H. unfold dobserve, s_observe. rewrite s_count_abs.
+  cbn [abs q_dims q_label q_unit q_data q_ty q_rank q_frames q_ro].
+  unfold q_data_dbl, data_dbl. cbn [abs q_data q_ty].
+  rewrite !lookup_gf by assumption. rewrite s_get_zero.
+  unfold count at 3. rewrite <- (zlen_map snd (dims s)), s_get_next. cbn [opt_is_some].
+  f_equal.
+  unfold count. pose proof H as G. apply gap_free_zrange in G. rewrite <- G.
+  unfold keys at 2. rewrite combine_fst_snd.
+  apply (obs_list_gf (dobs_of (a_label s) (a_unit s) (map (to_dbl (a_ty s)) (a_data s)) (frames s)) _ 1 H).
+Qed.
+
+Ltac fin :=
+  try (split; [ unfold abs, set_dim, add_dim, with_dims, with_label, with_unit, with_data, s_with_dims, s_with_label, s_with_unit, s_with_data;
+                     cbn [dims a_label a_unit a_data a_ty a_rank frames ro q_dims q_label q_unit q_data q_ty q_rank q_frames q_ro];
+                     rewrite ?map_app, ?update_snd by assumption; reflexivity
+                   | rewrite ?s_count_abs; unfold count in *;
+                     try (match goal with E : (0 <? zlen (dims ?s)) = false |- _ =>
+                            replace (zlen (dims s)) with 0 by (pose proof (zlen_nonneg (dims s)); apply Z.ltb_ge in E; lia) end);
+                     reflexivity ]).
+
+Lemma delete_all_count : forall s, gap_free (dims s) ->
+  fold_left (fun m i => remove_key i m) (rev (zrange (count s))) (dims s) = [].
+Proof. intros. unfold count. now apply delete_all_gf. Qed.
+
+
+Lemma s_get_one : forall l, zlen l = 1 -> s_get 1 l <> None.
+Proof.
+  intros l E. destruct l as [|x l]; [discriminate|]. unfold s_get. rewrite E. cbn. discriminate.
+Qed.
+
+Lemma refines_step : forall o s, gap_free (dims s) ->
+  abs (fst (dstep repaired o s)) = fst (sp_step o (abs s)) /\
+  forget (snd (dstep repaired o s)) = snd (sp_step o (abs s)).
+Proof.
+  intros o s H.
+  destruct o; cbn [dstep sp_step]; unfold_ops; cbv zeta; rep_simpl.
+  all: rewrite ?(create_group_next s H).
+  all: unfold s_append_frame, s_append, s_modify, s_arr_write, s_read, s_is_alias, set_opt_str, s_fref_cols, fref_cols,
+         ticks_ok, interval_ok, legal_ticks, legal_interval, legal_unit, unit_bad, append_offset in *; rep_simpl.
+  all: rewrite ?lookup_gf by assumption; abs_simpl; lit_simpl.
+  all: rewrite ?zlen_map, ?lempty_count, ?fne_zero.
+  all: rewrite ?delete_all_count by assumption.
+  all: unfold ticks_of, s_ticks_of, data_dbl, q_data_dbl in *; abs_simpl.
+  all: rewrite ?dims_refines, ?observe_refines by assumption.
+  all: try (destruct (0 <? count s) eqn:E0; [|rewrite ?(create_group_first s H E0)]).
+  all: rewrite ?s_count_abs.
+  all: unfold count in *.
+  all: crush; state_simpl; abs_simpl; cbn [forget bind] in *;
+       repeat match goal with A : Ok _ = Ok _ |- _ => inversion A; subst; clear A end; fin.
+  all: exfalso; match goal with A : (zlen (dims ?s) =? 1) = true, B : s_get 1 (map snd (dims ?s)) = None |- _ =>
+         apply Z.eqb_eq in A; apply (s_get_one (map snd (dims s))); [rewrite zlen_map; exact A | exact B] end.
+Qed.
+
+Lemma drun_cons : forall b o r s,
+  drun b (o :: r) s = (fst (drun b r (fst (dstep b o s))), snd (dstep b o s) :: snd (drun b r (fst (dstep b o s)))).
+Proof. intros. cbn [drun]. destruct (dstep b o s) as [s1 a]. cbn [fst snd]. destruct (drun b r s1). reflexivity. Qed.
+
+Lemma sp_run_cons : forall o r s,
+  sp_run (o :: r) s = (fst (sp_run r (fst (sp_step o s))), snd (sp_step o s) :: snd (sp_run r (fst (sp_step o s)))).
+Proof. intros. cbn [sp_run]. destruct (sp_step o s) as [s1 a]. cbn [fst snd]. destruct (sp_run r s1). reflexivity. Qed.
+
+Theorem refines_run : forall ops s, gap_free (dims s) ->
+  abs (fst (drun repaired ops s)) = fst (sp_run ops (abs s)) /\
+  map forget (snd (drun repaired ops s)) = snd (sp_run ops (abs s)).
+Proof.
+  induction ops as [|o r IH]; intros s H; [split; reflexivity|].
+  rewrite drun_cons, sp_run_cons. cbn [fst snd map].
+  destruct (refines_step o s H) as [A B]. rewrite <- A, <- B.
+  destruct (IH (fst (dstep repaired o s)) (gf_step repaired o s H)) as [C D].
+  split; [exact C|]. now rewrite D.
+Qed.
